@@ -1005,4 +1005,272 @@ theorem checkMultiSig_eval (c : Ctx) (fl : Flags) (sc : Bytes) (rk rs : List Byt
   cases fl.nullDummy <;> simp [pyIdx, bind, Except.bind]
 
 
+/-! ### scripts made of a list of direct pushes -/
+
+def pushAll (ds : List Bytes) : Bytes := (ds.map pushData).flatten
+
+def pushOps (idx : Nat) : List Bytes → List RawOp
+  | [] => []
+  | d :: ds => ⟨d.length, some d, idx⟩ :: pushOps (idx + (d.length + 1)) ds
+
+theorem pushAll_cons (d : Bytes) (ds : List Bytes) : pushAll (d :: ds) = pushData d ++ pushAll ds := by
+  simp [pushAll]
+
+theorem pushData_length (d : Bytes) : (pushData d).length = d.length + 1 := by simp [pushData]
+
+theorem rawIterFrom_pushAll (rest : Bytes) : ∀ (ds : List Bytes) (idx : Nat), (∀ d ∈ ds, d.length < 0x4c) →
+    rawIterFrom idx (pushAll ds ++ rest) =
+      (pushOps idx ds ++ (rawIterFrom (idx + (pushAll ds).length) rest).1,
+       (rawIterFrom (idx + (pushAll ds).length) rest).2) := by
+  intro ds
+  induction ds with
+  | nil => intro idx _; simp [pushAll, pushOps]
+  | cons d ds ih =>
+    intro idx h
+    rw [pushAll_cons, List.append_assoc, rawIterFrom_push idx d _ (h d List.mem_cons_self),
+      ih _ (fun d' hd' => h d' (List.mem_cons_of_mem _ hd'))]
+    simp only [pushOps, List.cons_append, List.length_append, pushData_length]
+    have : idx + (d.length + 1) + (pushAll ds).length = idx + (d.length + 1 + (pushAll ds).length) := by omega
+    rw [this]
+
+theorem loop_pushOps (c : Ctx) (fl : Flags) (script : Bytes) (ops' : List RawOp) (alt : List Bytes) (pb nops : Nat) :
+    ∀ (ds : List Bytes) (idx : Nat) (stack : List Bytes), (∀ d ∈ ds, d.length < 0x4c) →
+      stack.length + ds.length + alt.length ≤ 1000 →
+      loop c fl script none (pushOps idx ds ++ ops') ⟨stack, alt, [], pb, nops⟩ =
+        loop c fl script none ops' ⟨ds.reverse ++ stack, alt, [], pb, nops⟩ := by
+  intro ds
+  induction ds with
+  | nil => intro idx stack _ _; rfl
+  | cons d ds ih =>
+    intro idx stack h hsz
+    simp only [pushOps, List.cons_append]
+    have hd := h d List.mem_cons_self
+    rw [loop_cons _ _ _ _ _ _ _ (step_push c fl script d.length idx d stack alt pb nops hd (by omega)
+      (by simp at hsz; omega))]
+    rw [ih _ (d :: stack) (fun d' hd' => h d' (List.mem_cons_of_mem _ hd')) (by simp at hsz ⊢; omega)]
+    simp
+
+theorem pushOps_facts (post : Bytes) : ∀ (ds : List Bytes) (pre : Bytes), (∀ d ∈ ds, d.length < 0x4c) →
+    ∀ o ∈ pushOps pre.length ds,
+      (pre ++ (pushAll ds ++ post))[o.sopIdx]? = some (UInt8.ofNat o.opcode) ∧ pre.length ≤ o.sopIdx ∧
+      o.sopIdx < pre.length + (pushAll ds).length ∧ (∃ d ∈ ds, o.opcode = d.length) := by
+  intro ds
+  induction ds with
+  | nil => intro pre _ o ho; simp [pushOps] at ho
+  | cons d ds ih =>
+    intro pre h o ho
+    simp only [pushOps, List.mem_cons] at ho
+    rcases ho with rfl | ho
+    · refine ⟨?_, Nat.le_refl _, ?_, d, List.mem_cons_self, rfl⟩
+      · rw [pushAll_cons, List.getElem?_append_right (Nat.le_refl _)]
+        simp [pushData]
+      · rw [pushAll_cons]; simp [pushData]
+    · have e : pre.length + (d.length + 1) = (pre ++ pushData d).length := by simp [pushData]
+      rw [e] at ho
+      obtain ⟨a, b, c', d', hd', e'⟩ := ih (pre ++ pushData d) (fun x hx => h x (List.mem_cons_of_mem _ hx)) o ho
+      refine ⟨?_, ?_, ?_, d', List.mem_cons_of_mem _ hd', e'⟩
+      · rw [pushAll_cons]; simpa [List.append_assoc] using a
+      · simp [pushData] at b; omega
+      · rw [pushAll_cons]; simp [pushData] at c' ⊢; omega
+
+theorem pushOps_sorted : ∀ (ds : List Bytes) (idx : Nat),
+    List.Pairwise (fun a b : RawOp => a.sopIdx ≤ b.sopIdx) (pushOps idx ds) ∧ ∀ o ∈ pushOps idx ds, idx ≤ o.sopIdx := by
+  intro ds
+  induction ds with
+  | nil => intro idx; simp [pushOps]
+  | cons d ds ih =>
+    intro idx
+    obtain ⟨h1, h2⟩ := ih (idx + (d.length + 1))
+    simp only [pushOps, List.pairwise_cons, List.mem_cons]
+    refine ⟨⟨fun o ho => ?_, h1⟩, ?_⟩
+    · have := h2 o ho; simp; omega
+    · rintro o (rfl | ho)
+      · exact Nat.le_refl _
+      · have := h2 o ho; omega
+
+
+/-! ### bare multisig -/
+
+/-- OP_1 … OP_16 -/
+def opN (n : Nat) : UInt8 := UInt8.ofNat (0x50 + n)
+
+/-- `OP_m <key 1> … <key n> OP_n OP_CHECKMULTISIG` -/
+def multisigScript (m : Nat) (keys : List Bytes) : Bytes := opN m :: (pushAll keys ++ [opN keys.length, 0xae])
+
+/-- `OP_0 <sig 1> … <sig m>` -/
+def multisigScriptSig (sigs : List Bytes) : Bytes := pushAll ([] :: sigs)
+
+theorem opN_toNat (n : Nat) (h : n ≤ 16) : (opN n).toNat = 0x50 + n := toNat_ofNat_lt (by omega)
+
+theorem bl (n : Nat) : bitLength n = if n = 0 then 0 else bitLength (n / 2) + 1 := by
+  rw [bitLength]; split <;> simp_all
+
+theorem bn2vch_small (n : Nat) (h1 : 1 ≤ n) (h2 : n ≤ 16) : bn2vch (n : Int) = .ok [UInt8.ofNat n] := by
+  have : n = 1 ∨ n = 2 ∨ n = 3 ∨ n = 4 ∨ n = 5 ∨ n = 6 ∨ n = 7 ∨ n = 8 ∨ n = 9 ∨ n = 10 ∨ n = 11 ∨ n = 12 ∨
+      n = 13 ∨ n = 14 ∨ n = 15 ∨ n = 16 := by omega
+  rcases this with rfl | rfl | rfl | rfl | rfl | rfl | rfl | rfl | rfl | rfl | rfl | rfl | rfl | rfl | rfl | rfl <;>
+    simp [bn2vch, bn2mpiBody, bn2bin, bnBytes, bl, bind, Except.bind]
+
+/-- one loop iteration for OP_1 … OP_16 -/
+theorem step_small (c : Ctx) (fl : Flags) (script : Bytes) (n idx : Nat) (stack alt : List Bytes) (pb nops : Nat)
+    (h1 : 1 ≤ n) (h16 : n ≤ 16) (hsz : stack.length + 1 + alt.length ≤ 1000) :
+    step c fl script ⟨0x50 + n, none, idx⟩ ⟨stack, alt, [], pb, nops⟩ =
+      .ok ⟨[UInt8.ofNat n] :: stack, alt, [], pb, nops⟩ := by
+  have hdis : 0x50 + n ∉ disabledOpcodes := by
+    simp only [disabledOpcodes, List.mem_cons, List.not_mem_nil, or_false]; omega
+  have h2 : ¬ 0x50 + n ≤ 0x4e := by omega
+  have h4 : ¬ ([UInt8.ofNat n] :: stack).length + alt.length > MAX_STACK_SIZE := by
+    simp only [MAX_STACK_SIZE, List.length_cons]; omega
+  have hb : execOp c fl script ⟨0x50 + n, none, idx⟩ true ⟨stack, alt, [], pb, nops⟩ =
+      .ok ⟨[UInt8.ofNat n] :: stack, alt, [], pb, nops⟩ := by
+    unfold execOp
+    rw [if_pos (Or.inr ⟨by simp only []; omega, by simp only []; omega⟩)]
+    have : ((0x50 + n : Nat) : Int) - 0x50 = (n : Int) := by push_cast; omega
+    simp only [opSmallInt, this, bn2vch_small n h1 h16, bind, Except.bind]
+  unfold step
+  simp only [hdis, if_false, countOp_push _ _ (by omega : 0x50 + n ≤ 0x60), bind, Except.bind, dispatch, h2,
+    checkExec, List.all_nil, true_or, if_true, hb, h4]
+
+theorem rawIter_multisig (m : Nat) (keys : List Bytes) (hm : m ≤ 16) (hn : keys.length ≤ 16)
+    (hk : ∀ k ∈ keys, k.length < 0x4c) :
+    rawIter (multisigScript m keys) =
+      (⟨0x50 + m, none, 0⟩ :: (pushOps 1 keys ++
+        [⟨0x50 + keys.length, none, 1 + (pushAll keys).length⟩, ⟨0xae, none, 1 + (pushAll keys).length + 1⟩]), none) := by
+  unfold rawIter multisigScript
+  rw [rawIterFrom_opcode 0 (opN m) _ (by rw [opN_toNat m hm]; omega), opN_toNat m hm,
+    rawIterFrom_pushAll _ keys _ hk,
+    rawIterFrom_opcode _ (opN keys.length) _ (by rw [opN_toNat _ hn]; omega), opN_toNat _ hn,
+    rawIterFrom_opcode _ 0xae _ (by decide), rawIterFrom_nil]
+  simp
+
+theorem execOp_checkmultisig (c : Ctx) (fl : Flags) (script : Bytes) (idx : Nat) (f : Bool) (st : St) :
+    execOp c fl script ⟨0xae, none, idx⟩ f st = checkMultiSig c fl 0xae (script.drop st.pbegin) st := by
+  simp [execOp, binaryNumOps, unaryNumOps]
+
+
+theorem fad_multisig (cap : Captured) (m : Nat) (keys : List Bytes) (sig : Bytes) (hm : m ≤ 16)
+    (hn : keys.length ≤ 16) (hk : ∀ k ∈ keys, k.length < 0x4c) (hs : sig.length < 0x4c)
+    (hne : ∀ k ∈ keys, sig.length ≠ k.length) :
+    findAndDelete cap (multisigScript m keys) (pushData sig) = .ok (multisigScript m keys) := by
+  have hsh : multisigScript m keys = [opN m] ++ (pushAll keys ++ [opN keys.length, 0xae]) := rfl
+  apply fad_noop cap _ _ _ _ (rawIter_multisig m keys hm hn hk) rfl
+  · intro o ho
+    apply slice_ne_of_head
+    simp only [List.mem_cons, List.mem_append, List.not_mem_nil, or_false] at ho
+    rcases ho with rfl | ho | rfl | rfl
+    · simp only [multisigScript, List.getElem?_cons_zero, ne_eq, Option.some.injEq]
+      intro h
+      have := congrArg UInt8.toNat h
+      rw [opN_toNat m hm, toNat_ofNat_lt (by omega)] at this
+      omega
+    · obtain ⟨a, _, _, d, hd, e⟩ := pushOps_facts [opN keys.length, 0xae] keys [opN m] hk o ho
+      rw [hsh, a, e]
+      simp only [ne_eq, Option.some.injEq]
+      exact ofNat_ne (by have := hk d hd; omega) (by omega) (Ne.symm (hne d hd))
+    · have : (multisigScript m keys)[1 + (pushAll keys).length]? = some (opN keys.length) := by
+        rw [hsh, List.getElem?_append_right (by simp), List.getElem?_append_right (by simp)]
+        simp
+      rw [this]
+      simp only [ne_eq, Option.some.injEq]
+      intro h
+      have := congrArg UInt8.toNat h
+      rw [opN_toNat _ hn, toNat_ofNat_lt (by omega)] at this
+      omega
+    · have : (multisigScript m keys)[1 + (pushAll keys).length + 1]? = some 0xae := by
+        rw [hsh, List.getElem?_append_right (by simp), List.getElem?_append_right (by simp)]
+        simp
+      rw [this]
+      simp only [ne_eq, Option.some.injEq]
+      exact (ofNat_ne_lit (by omega) _ (by simp; omega)).symm
+  · obtain ⟨h1, h2⟩ := pushOps_sorted keys 1
+    rw [List.pairwise_cons]
+    refine ⟨fun o _ => Nat.zero_le _, ?_⟩
+    rw [List.pairwise_append]
+    refine ⟨h1, by simp, ?_⟩
+    intro a ha b hb
+    obtain ⟨_, _, c', _⟩ := pushOps_facts [opN keys.length, 0xae] keys [opN m] hk a ha
+    simp only [List.mem_cons, List.not_mem_nil, or_false] at hb
+    simp only [List.length_singleton] at c'
+    rcases hb with rfl | rfl <;> simp only <;> omega
+
+
+theorem pushAll_length_le : ∀ (ds : List Bytes), (∀ d ∈ ds, d.length < 0x4c) →
+    (pushAll ds).length ≤ 0x4c * ds.length := by
+  intro ds
+  induction ds with
+  | nil => intro _; simp [pushAll]
+  | cons d ds ih =>
+    intro h
+    have := ih (fun x hx => h x (List.mem_cons_of_mem _ hx))
+    have hd := h d List.mem_cons_self
+    rw [pushAll_cons]
+    simp only [List.length_append, pushData_length, List.length_cons]
+    omega
+
+theorem rawIter_pushAll (ds : List Bytes) (h : ∀ d ∈ ds, d.length < 0x4c) :
+    rawIter (pushAll ds) = (pushOps 0 ds, none) := by
+  have := rawIterFrom_pushAll [] ds 0 h
+  rw [List.append_nil, rawIterFrom_nil] at this
+  unfold rawIter
+  rw [this]; simp
+
+/-- a scriptSig that is a list of direct pushes leaves them on the stack (last one on top) -/
+theorem evalScript_pushAll (c : Ctx) (fl : Flags) (ds : List Bytes) (h : ∀ d ∈ ds, d.length < 0x4c)
+    (hn : ds.length ≤ 100) : evalScript c fl [] (pushAll ds) = .ok ds.reverse := by
+  have hl : (pushAll ds).length ≤ 10000 := by have := pushAll_length_le ds h; omega
+  have := evalScript_of_loop c fl [] (pushAll ds) _ ⟨ds.reverse, [], [], 0, 0⟩ hl (rawIter_pushAll ds h)
+    (by
+      have := loop_pushOps c fl (pushAll ds) [] [] 0 0 ds 0 [] h (by simp; omega)
+      rw [List.append_nil] at this
+      rw [this, loop_nil]; simp) rfl
+  exact this
+
+theorem isPushOnly_pushAll (ds : List Bytes) (h : ∀ d ∈ ds, d.length < 0x4c) : isPushOnly (pushAll ds) = true := by
+  apply isPushOnly_of _ _ (rawIter_pushAll ds h)
+  intro o ho
+  obtain ⟨_, _, _, d, hd, e⟩ := pushOps_facts [] ds [] h o ho
+  have := h d hd
+  omega
+
+/-- `OP_m <keys> OP_n OP_CHECKMULTISIG` on the stack left by `OP_0 <sigs>` -/
+theorem evalScript_multisig (c : Ctx) (fl : Flags) (m : Nat) (keys sigs : List Bytes)
+    (hidx : 0 ≤ c.inIdx) (hm1 : 1 ≤ m) (hmn : m ≤ keys.length) (hn : keys.length ≤ 16) (hsl : sigs.length = m)
+    (hk : ∀ k ∈ keys, k.length < 0x4c) (hs : ∀ s ∈ sigs, s.length < 0x4c)
+    (hne : ∀ s ∈ sigs, ∀ k ∈ keys, s.length ≠ k.length) :
+    evalScript c fl (sigs.reverse ++ [[]]) (multisigScript m keys) =
+      .ok [if greedy (chkSig c (multisigScript m keys)) sigs.reverse keys.reverse then [1] else []] := by
+  have hm16 : m ≤ 16 := by omega
+  have hL := pushAll_length_le keys hk
+  have hl : (multisigScript m keys).length ≤ 10000 := by
+    simp [multisigScript]; omega
+  have hit := rawIter_multisig m keys hm16 hn hk
+  have hparse : (rawIter (multisigScript m keys)).2 = none := by rw [hit]
+  have e := evalScript_of_loop c fl (sigs.reverse ++ [[]]) (multisigScript m keys) _
+    ⟨[if greedy (chkSig c (multisigScript m keys)) sigs.reverse keys.reverse then [1] else []], [], [], 0,
+      1 + keys.length⟩ hl hit ?_ rfl
+  · exact e
+  · rw [loop_cons _ _ _ _ _ _ _ (step_small c fl _ m 0 (sigs.reverse ++ [[]]) [] 0 0 hm1 hm16 (by simp; omega))]
+    rw [loop_pushOps c fl _ _ [] 0 0 keys 1 _ hk (by simp; omega)]
+    rw [loop_cons _ _ _ _ _ _ _ (step_small c fl _ keys.length _ _ [] 0 0 (by omega) hn (by simp; omega))]
+    rw [loop_cons _ _ _ _ _ _
+      ⟨[if greedy (chkSig c (multisigScript m keys)) sigs.reverse keys.reverse then [1] else []], [], [], 0,
+        1 + keys.length⟩, loop_nil]
+    apply step_opcode
+    · omega
+    · decide
+    · omega
+    · rw [execOp_checkmultisig]
+      simp only [List.drop_zero]
+      have := checkMultiSig_eval c fl (multisigScript m keys) keys.reverse sigs.reverse [] 0 1
+        (chkSig c (multisigScript m keys)) (by simpa using hn) (by simp; omega) (by simp; omega)
+        (by simp; omega)
+        (fun s hs' => hs s (by simpa using hs'))
+        (fun s hs' cap => fad_multisig cap m keys s hm16 hn hk (hs s (by simpa using hs'))
+          (hne s (by simpa using hs')))
+        (fun cap s k => checkSig_total c cap s k _ hidx hparse)
+      simp only [List.length_reverse, hsl] at this
+      exact this
+    · simp
+
+
 end BtcVerif.C05T
